@@ -142,12 +142,39 @@ def exhaustive_python(ctx):
     pairs = list(itertools.product(atoms, repeat=2))
     step = ctx.nshards * (1 if ctx.tier == "thorough" else 4)
     off = ctx.shard + (ctx.seed % 4) * ctx.nshards if ctx.tier == "quick" else ctx.shard
+    from dep_logic.markers import parse_marker
+    from dep_logic.markers.single import MarkerExpression
+
+    generated = {}  # atoms the library itself produced (not in the input alphabet) -> tree producing them
+    atomset = set(atoms)
+
+    def level1(tree):
+        _run_tree(ctx, tree)
+        with MM.oracle():
+            try:
+                r = MW.build(tree)
+            except Exception:  # noqa: BLE001
+                return
+            if isinstance(r, MarkerExpression) and str(r) not in atomset and str(r) not in generated:
+                generated[str(r)] = tree
+
     for i in range(off, len(pairs), step):
         x, y = pairs[i]
-        _run_tree(ctx, [("and", "or")[i % 2], ["m", x], ["m", y]])
+        level1([("and", "or")[i % 2], ["m", x], ["m", y]])
         if ctx.tier == "thorough":
-            _run_tree(ctx, [("or", "and")[i % 2], ["m", x], ["m", y]])
+            level1([("or", "and")[i % 2], ["m", x], ["m", y]])
     ctx.extra["exhaustive_python_pairs"] = len(pairs) if ctx.shard == 0 else 0
+    # reachability closure, one level: every library-generated atom against every input atom
+    n2 = 0
+    gen = sorted(generated.items())
+    for gi, (text, tree) in enumerate(gen):
+        for zi, z in enumerate(atoms):
+            if ctx.tier == "quick" and (gi * 31 + zi + ctx.seed) % 6:
+                continue
+            _run_tree(ctx, [("and", "or")[(gi + zi) % 2], tree, ["m", z]])
+            n2 += 1
+    ctx.extra["library_generated_python_atoms"] = len(gen)
+    ctx.extra["closure_level2_cases"] = n2
     ctx.shape("stratum:exhaustive-python")
 
 
